@@ -41,7 +41,16 @@ func (c *Ctx) Traces(n int, fn func(t int, rng *rand.Rand)) {
 		if c.Only >= 0 && t != c.Only {
 			continue
 		}
-		fn(t, rand.New(rand.NewSource(c.Seed*1000003+int64(t)*7919+17)))
+		func() {
+			// A panic while driving the real code is logged as an event that no specification action explains
+			// (the trace is rejected and re-executed), instead of killing the whole run.
+			defer func() {
+				if r := recover(); r != nil && c.W != nil {
+					c.W.Ev("Panic", "what", fmt.Sprint(r))
+				}
+			}()
+			fn(t, rand.New(rand.NewSource(c.Seed*1000003+int64(t)*7919+17)))
+		}()
 	}
 }
 
